@@ -555,6 +555,8 @@ class G(object):
             return self.host_stmt(ctx, ind)
         if not deep and ctx.depth <= 2 and r.random() < 0.05:
             return self.import_family(ctx, ind)
+        if r.random() < 0.04:
+            return self.import_list(ctx, ind)
         if x < 0.66:
             kinds = list(STMT_KINDS)
             if deep:
@@ -931,6 +933,52 @@ class G(object):
                 self.emit(ind, '    as')
                 self.emit(ind, '        %s)' % b)
         self.reads(ctx, ind, ids)
+
+    def import_list(self, ctx, ind):
+        """one import statement listing 2-4 dotted names of the same package, mixed with other packages and with
+        `as` aliases; the package name is read, never read, or read only through one of the dotted paths"""
+        r = self.r
+        self.budget -= 1
+        mode = r.choice(['never', 'never', 'top', 'one-path', 'all-paths'])
+        if r.random() < 0.4:
+            P = r.choice(['xml', 'pk', 'os', 'logging', 'email'])
+            if self.decided.get(P):
+                mode = 'top' if mode == 'never' else mode
+        else:
+            self.counter += 1
+            P = r.choice(['n%d', 'n%d', '_n%d']) % self.counter
+        self.decided[P] = self.decided.get(P, False) or mode != 'never'
+        subs = ['dom', 'sax', 'etree', 'sub', 'sub2', 'path', 'config', 'handlers', 'sub.deep']
+        r.shuffle(subs)
+        mine = subs[:r.choice([2, 2, 3, 4])]
+        items = ['%s.%s' % (P, x) for x in mine]
+        if r.random() < 0.25:
+            items.append(P)
+        for _ in range(r.choice([0, 0, 1, 2])):
+            x = r.random()
+            if x < 0.35:
+                items.append('%s.%s as %s' % (P, r.choice(subs), self.tid(ctx, 'import-as')))
+            elif x < 0.6:
+                items.append('%s.%s' % (r.choice(['os', 'pm2', 'json']), r.choice(['path', 'sub', 'tool'])))
+            elif x < 0.8:
+                items.append('pm as %s' % self.tid(ctx, 'import-as'))
+            else:
+                items.append(self.tid(ctx, 'import'))
+        r.shuffle(items)
+        x = r.random()
+        if x < 0.75 or len(items) < 3:
+            self.emit(ind, 'import ' + ', '.join(items))
+        else:
+            self.emit(ind, 'import %s, \\' % ', '.join(items[:2]))
+            self.emit(ind, '    ' + ', '.join(items[2:]))
+        if P not in ctx.gl:
+            ctx.bound.add(P)
+        if mode == 'top':
+            self.emit(ind, 'use(%s)' % P)
+        elif mode == 'one-path':
+            self.emit(ind, 'use(%s.%s.z)' % (P, mine[-1]))
+        elif mode == 'all-paths':
+            self.emit(ind, 'use(%s)' % ', '.join('%s.%s' % (P, m) for m in mine))
 
     def import_family(self, ctx, ind):
         """one package imported several ways: a dotted import whose top-level name is read through the full path,
